@@ -129,6 +129,35 @@ class SetUnslicer(BaseUnslicer):
 class FrozenSetUnslicer(TupleUnslicer):
     opentype = ("immutable-set",)
 
+    # frozensets are governed by a SetConstraint (not the TupleConstraint
+    # that TupleUnslicer expects)
+    maxLength = None
+    itemConstraint = None
+
+    def setConstraint(self, constraint):
+        if isinstance(constraint, Any):
+            return
+        assert isinstance(constraint, SetConstraint)
+        self.maxLength = constraint.maxLength
+        self.itemConstraint = constraint.constraint
+
+    def checkToken(self, typebyte, size):
+        if self.maxLength != None and len(self.list) >= self.maxLength:
+            raise Violation("the set is full")
+        if self.itemConstraint:
+            self.itemConstraint.checkToken(typebyte, size)
+
+    def doOpen(self, opentype):
+        if self.maxLength != None and len(self.list) >= self.maxLength:
+            raise Violation("the set is full")
+        if self.itemConstraint:
+            self.itemConstraint.checkOpentype(opentype)
+        unslicer = self.open(opentype)
+        if unslicer:
+            if self.itemConstraint:
+                unslicer.setConstraint(self.itemConstraint)
+        return unslicer
+
     def receiveClose(self):
         obj_or_deferred, ready_deferred = TupleUnslicer.receiveClose(self)
         if isinstance(obj_or_deferred, defer.Deferred):
